@@ -217,3 +217,16 @@ def run_meta_jobs(jobs, workers=12):
         for r in ex.map(_meta_job, jobs):
             out += r
     return out
+
+
+_SPLINE_REPLAY_CACHE = {}
+
+
+def spline_replay(prop, result, workdir, seed):
+    """spline family: the verifier's counterexamples range over symbolic-length arrays and are not concrete problems; the real
+    code is instead run on a seeded battery of well-scaled problems for the violated property (native/replay_spline.cpp);
+    one battery run per check run (cached)"""
+    key = (prop, seed)
+    if key not in _SPLINE_REPLAY_CACHE:
+        _SPLINE_REPLAY_CACHE[key] = replay_native('replay_spline', [prop, max(1, int(seed))], workdir, timeout=900)
+    return _SPLINE_REPLAY_CACHE[key]
